@@ -243,6 +243,7 @@ def _run_hyp(prop, comp, tier, shard, nshards, ctx, tally, deadline):
     n = comp.examples(tier)
     state = {"last_fail": None}
     strat = comp.strategy(tier)
+    shrink_budget = 90 if tier == "quick" else 300
 
     @hypothesis.seed(derive_seed(prop, comp.name, shard))
     @settings(max_examples=n, database=None, deadline=None, derandomize=False,
@@ -257,11 +258,19 @@ def _run_hyp(prop, comp, tier, shard, nshards, ctx, tally, deadline):
             tally.budget_exhausted = True
             tally.skipped += 1
             return
+        if state["last_fail"] is not None and time.time() > state["fail_at"] + shrink_budget:
+            # shrinking budget used up: only the current best failing case is still executed
+            # (Hypothesis replays it at the end); every other candidate counts as passing
+            if canon.digest(case) != state["best"]:
+                return
         ctx.reset()
         try:
             comp.check(case, ctx)
         except Violation as v:
+            if state["last_fail"] is None:
+                state["fail_at"] = time.time()
             state["last_fail"] = (case, v)
+            state["best"] = canon.digest(case)
             raise
         tally.record(case, ctx)
 
@@ -396,16 +405,35 @@ def run_property(mod, tier, only=None):
             c, s, ns, out = pending.pop(0)
             cmd = [sys.executable, "-m", "pbt.main", prop, "--tier", tier, "--worker",
                    c.name, str(s), str(ns), out]
-            p = subprocess.Popen(cmd, cwd=VERIF, env=env, stdout=subprocess.PIPE,
-                                 stderr=subprocess.STDOUT)
+            # worker output goes to a file, never to an undrained pipe (the library prints
+            # progress bars when show_progress is on; a full pipe would block the worker)
+            logf = open(out + ".log", "wb")
+            p = subprocess.Popen(cmd, cwd=VERIF, env=env, stdout=logf, stderr=subprocess.STDOUT)
+            logf.close()
+            p.started_at = time.time()
             running.append((p, c, s, out))
         time.sleep(0.05)
         still = []
         for p, c, s, out in running:
             if p.poll() is None:
-                still.append((p, c, s, out))
-                continue
-            text = p.stdout.read().decode("utf-8", "replace")
+                # watchdog: a shard that runs far beyond its own budget is stuck (harness
+                # problem, reported as such -- never as a violation)
+                if time.time() - p.started_at > 2 * c.budget_s(tier) + 600:
+                    p.kill()
+                    p.wait()
+                else:
+                    still.append((p, c, s, out))
+                    continue
+            text = ""
+            try:
+                with open(out + ".log", "rb") as lf:
+                    lf.seek(0, 2)
+                    size = lf.tell()
+                    lf.seek(max(0, size - 4000))
+                    text = lf.read().decode("utf-8", "replace")
+                os.remove(out + ".log")
+            except OSError:
+                pass
             if os.path.exists(out):
                 r = json.load(open(out, encoding="utf-8"))
                 os.remove(out)
